@@ -338,6 +338,30 @@ def chunked(seq, n):
     return [seq[i:i + k] for i in range(0, len(seq), k)]
 
 
+def fork_map(fn, chunks, procs=None):
+    """fn over chunks in forked worker processes.  The parent's heap is
+    frozen for the garbage collector first, so that the workers do not copy
+    it page by page (the case lists of the thorough tier are several GB);
+    a worker that dies (e.g. killed for memory) is a machinery failure, not
+    a hang."""
+    import concurrent.futures
+    import gc
+    procs = procs or NCPU
+    ctx = multiprocessing.get_context('fork')
+    gc.collect()
+    gc.freeze()
+    try:
+        with concurrent.futures.ProcessPoolExecutor(
+                max_workers=procs, mp_context=ctx) as ex:
+            try:
+                return list(ex.map(fn, chunks))
+            except concurrent.futures.process.BrokenProcessPool as e:
+                raise MachineryError('a worker process died (out of memory?)'
+                                     ': %s' % e)
+    finally:
+        gc.unfreeze()
+
+
 def pool_map(fn, items, procs=None, chunks_per_proc=4):
     """Run fn(chunk) -> list over chunks in a process pool (fork)."""
     procs = procs or NCPU
@@ -345,9 +369,7 @@ def pool_map(fn, items, procs=None, chunks_per_proc=4):
     if len(items) < 64 or procs == 1:
         return fn(items)
     chunks = chunked(items, procs * chunks_per_proc)
-    ctx = multiprocessing.get_context('fork')
-    with ctx.Pool(procs) as pool:
-        parts = pool.map(fn, chunks)
+    parts = fork_map(fn, chunks, procs)
     out = []
     for p in parts:
         out.extend(p)
